@@ -61,7 +61,7 @@ fn mutation() -> BoxedStrategy<Mutation> {
         2 => (any::<u16>(), any::<u16>()).prop_map(|(a, b)| Mutation::DuplicateSlice(a, b)),
         2 => (any::<u16>(), any::<u16>()).prop_map(|(a, b)| Mutation::Splice(a, b)),
         3 => (any::<u16>(), 19u16..400).prop_map(|(a, b)| Mutation::HugeNumber(a, b)),
-        3 => (any::<u16>(), prop::sample::select(vec![&b"\0"[..], b"\xff", b"\xc3", b"\xf0\x9f", b"\n\n", b"\r\n", b"=", b"-", b"{", b"}", b"nb", b"@", b"\xa0", b" ", b"<", b">="]).prop_map(|s| s.to_vec())).prop_map(|(a, b)| Mutation::InsertBytes(a, b)),
+        3 => (any::<u16>(), prop::sample::select(vec![&b"\0"[..], b"\xff", b"\xc3", b"\xf0\x9f", b"\n\n", b"\n\n\n", b"\n\n\n\n", b"\r\n", b"=", b"-", b"{", b"}", b"nb", b"@", b"\xa0", b" ", b"<", b">="]).prop_map(|s| s.to_vec())).prop_map(|(a, b)| Mutation::InsertBytes(a, b)),
         1 => (any::<u16>(), 500u16..3500).prop_map(|(a, b)| Mutation::LongLine(a, b)),
         2 => (any::<u16>(), any::<u16>()).prop_map(|(a, b)| Mutation::DeleteSlice(a, b)),
         2 => (any::<u16>(), any::<u8>()).prop_map(|(a, b)| Mutation::FlipByte(a, b)),
@@ -148,12 +148,18 @@ fn grammar(target: &'static str) -> BoxedStrategy<Vec<u8>> {
             1 => Just(SEED_SUMMARY.as_bytes().to_vec()),
         ]
         .boxed(),
-        "stream" => (any::<u8>(), prop::collection::vec(sumgen::assignment(sumgen::stream_text), 1..4))
-            .prop_map(|(c, es)| {
+        "stream" => (any::<u8>(), prop::collection::vec((sumgen::assignment(sumgen::stream_text), 0usize..12), 1..4), 0usize..8)
+            .prop_map(|(c, es, lead)| {
+                // entries separated by one blank line - now and then by none or by several, and
+                // the stream may start with blank lines (empty records)
                 let mut v = vec![c];
-                for a in es {
+                if lead >= 6 {
+                    v.extend(std::iter::repeat(b'\n').take(lead - 4));
+                }
+                for (a, sep) in es {
                     v.extend_from_slice(ms::print(&a).as_bytes());
-                    v.push(b'\n');
+                    let blanks = match sep { 0 => 0, 1 => 2, 2 => 3, 3 => 4, _ => 1 };
+                    v.extend(std::iter::repeat(b'\n').take(blanks));
                 }
                 v
             })
